@@ -32,6 +32,8 @@ def check(run):
     shared_state(R, 'C14.shared')
     R.rule('C14.before', 'in run(): _on_event(event, auto_pong) precedes `yield event` on every path of the feed loop', 2)
     R.rule('C14.branch', '_send_pong(event) iff event.name == "ping" and auto_pong; once; with event.data', 5)
+    from .common import event_fields as _event_fields
+    _event_fields(R, 'C14.branch', ['Ping'])      # the payload the Pong repeats
     R.rule('C14.only', 'send_pong is called only by _send_pong, _send_pong only by _on_event; PONG frames only from '
                        'send_pong', 3)
     R.rule('C14.param', 'auto_pong reaches _on_event from connect() through run() unswapped', 3)
